@@ -32,6 +32,10 @@ pub enum Resp {
     Empty,
 }
 
+/// Pause between the last chunk and a scripted connection abort (coverage only: the oracles of the
+/// checks that use it hold for either arrival order).
+pub const ABORT_DELAY_MS: u64 = 40;
+
 #[derive(Default)]
 pub struct RunScript {
     pub responses: Vec<Resp>,
@@ -72,7 +76,15 @@ async fn handle(State(p): State<Provider>, AxPath(key): AxPath<String>, headers:
             if abort {
                 items.push(Err(std::io::Error::new(std::io::ErrorKind::ConnectionAborted, "scripted abort")));
             }
-            let stream = futures_util::stream::iter(items);
+            // the abort comes after the chunks have had time to reach the client: without the pause
+            // the server sees chunk and error in one poll and resets the connection before sending
+            // anything, and "abort" would only ever exercise the before-first-byte path
+            let stream = futures_util::StreamExt::then(futures_util::stream::iter(items), |item| async move {
+                if item.is_err() {
+                    tokio::time::sleep(std::time::Duration::from_millis(ABORT_DELAY_MS)).await;
+                }
+                item
+            });
             ([("content-type", "text/event-stream")], Body::from_stream(stream)).into_response()
         }
     }
